@@ -674,6 +674,13 @@ class Folder:
             pass
         elif isinstance(st, ast.FunctionDef):
             e.set(st.name, ("closure", st, e))
+        elif isinstance(st, ast.With) and len(st.items) == 1 and st.items[0].optional_vars is None \
+                and isinstance(st.items[0].context_expr, ast.Call) and not st.items[0].context_expr.keywords \
+                and getattr(self.index.resolve_expr(e.mod, st.items[0].context_expr.func), "target", None) == "contextlib.suppress":
+            # `with contextlib.suppress(A, B): body`  ==  `try: body` / `except (A, B): pass`
+            types_ = st.items[0].context_expr.args
+            handler = ast.ExceptHandler(type=ast.Tuple(elts=list(types_), ctx=ast.Load()), name=None, body=[ast.Pass()])
+            self._exec(ast.copy_location(ast.Try(body=st.body, handlers=[handler], orelse=[], finalbody=[]), st), e)
         elif isinstance(st, ast.Try) and not st.finalbody:
             # lookups on folded containers raise the genuine exception types: handlers are matched by name
             try:
@@ -909,6 +916,11 @@ class Folder:
                 return obj._container()[self._eval(x.slice, e)]
             if isinstance(obj, HostModel):
                 return obj[self._eval(x.slice, e)]
+            if isinstance(obj, _re.Match):
+                try:
+                    return obj[self._eval(x.slice, e)]          # m[1], m['name']: the same as m.group(...)
+                except IndexError as ex:
+                    raise FoldRaise(f"IndexError: {ex}", "IndexError")
             if not isinstance(obj, (dict, list, tuple, str, _collections.deque, bytes)):
                 raise AnalysisError(f"constfold: subscript on {type(obj).__name__}")
             try:
@@ -1565,8 +1577,9 @@ class Folder:
                     key_ = None
                 if key_ is not None:
                     if key_ not in memo:
-                        memo[key_] = self.call_function(fn, args, kw, self_value, _raw=True)
-                    return memo[key_]
+                        # (the receiver is kept with the result: the id() of a freed object is handed out again)
+                        memo[key_] = (self.call_function(fn, args, kw, self_value, _raw=True), self_value)
+                    return memo[key_][0]
         local = {}
         params = list(fn.params)
         if fn.cls is not None and fn.kind in ("method", "property", "setter"):
